@@ -267,9 +267,11 @@ def grid_post(ptype, scale):
         run = p.run
         dom = run.dom
         if p.kind == 'raise':
-            # LOG scale with a negative bound is refused by the converter (ValueError): a refusal, not a grid
-            ok = T == 'DOUBLE' and scale == 'LOG' and exc_class(p) == 'ValueError'
-            return [('C03.grid_points.no_raise.' + T, z3.BoolVal(bool(ok)) if not ok else z3.Or(xreal.r(dom.lo) < 0, xreal.r(dom.hi) < 0))]
+            # the property allows a configuration that cannot be handled to be REFUSED with an error: the scaling converter of the grid
+            # refuses a LOG / REVERSE_LOG parameter with a non-positive bound (ValueError); nothing else may raise
+            if T == 'DOUBLE' and scale in ('LOG', 'REVERSE_LOG') and exc_class(p) == 'ValueError':
+                return [('C03.grid_points.refuses_only_nonpositive_log_bounds.' + T, z3.Or(xreal.r(dom.lo) <= 0, xreal.r(dom.hi) <= 0))]
+            return [('C03.grid_points.no_raise.' + T, z3.BoolVal(False))]
         res = p.value
         out = [('C03.grid_points.no_raise.' + T, z3.BoolVal(True))]
         name = 'C03.grid_points.in_domain.' + T
@@ -427,3 +429,462 @@ def default_class(p):
     if run.default is None or run.dom.ptype != 'DOUBLE':
         return False
     return z3.Not(SK.member(run.dom, run.default))
+
+
+# =========================================================================================== E. policy factory
+TABLE = {   # algorithm name (property statement) -> class the factory must hand the study to
+    'DEFAULT': 'VizierGPUCBPEBandit', 'ALGORITHM_UNSPECIFIED': 'VizierGPUCBPEBandit', 'GP_UCB_PE': 'VizierGPUCBPEBandit',
+    'GAUSSIAN_PROCESS_BANDIT': 'VizierGPBandit', 'RANDOM_SEARCH': 'RandomPolicy', 'QUASI_RANDOM_SEARCH': 'QuasiRandomDesigner',
+    'GRID_SEARCH': 'GridSearchDesigner', 'SHUFFLED_GRID_SEARCH': 'GridSearchDesigner', 'NSGA2': 'NSGA2Designer', 'BOCS': 'BOCSDesigner',
+    'HARMONICA': 'HarmonicaDesigner', 'CMA_ES': 'CMAESDesigner', 'EAGLE_STRATEGY': 'EagleStrategyDesigner',
+}
+
+
+def _time_time(it, args, kw):
+    t = it.run.fresh('time', xreal.XReal)
+    it.run.assume(z3.And(xreal.is_fin(t), xreal.r(t) >= 0))
+    return t
+
+
+def factory_entry(it):
+    run = it.run
+    EXTERNAL['time.time'] = Builtin('time.time', _time_time)
+    run.alg = run.fresh('algorithm', Str)
+    self = Obj(mod(PFM).classes['DefaultPolicyFactory'], {})
+    return K.call_method(it, self, '__call__', [M.Opaque('problem_statement'), run.alg, M.Opaque('policy_supporter'), 'study'])
+
+
+def target_class(policy):
+    """(class name the policy delegates to, unbound keyword names of a functools.partial)"""
+    if not isinstance(policy, Obj):
+        return None, ()
+    if '_designer_factory' not in policy.attrs:
+        return E.class_name(policy.cls), ()
+    f = policy.attrs['_designer_factory']
+    kws = ()
+    if isinstance(f, NP.Partial):
+        kws, f = tuple(f.kw), f.f
+        fv = f.func if isinstance(f, E.Bound) else f
+        if isinstance(fv, E.FuncVal):
+            a = fv.node.args
+            params = {x.arg for x in a.posonlyargs + a.args + a.kwonlyargs}
+            kws = tuple(k for k in kws if k not in params and a.kwarg is None)
+    if isinstance(f, E.Bound):
+        f = f.obj
+    return (getattr(f, 'qualname', None) or E.class_name(getattr(f, 'cls', f))), kws
+
+
+def factory_post(p):
+    run = p.run
+    alg = run.alg
+    known_name = z3.Or(*[alg == pm.str_lit(n) for n in TABLE])
+    if p.kind == 'raise':
+        return [('C03.policy_factory.refuses_unknown', z3.And(z3.BoolVal(exc_class(p) == 'ValueError'), z3.Not(known_name)))]
+    cls, unbound = target_class(p.value)
+    return [('C03.policy_factory.accepts_only_registered', known_name),
+            ('C03.policy_factory.table', z3.And(*[z3.Implies(alg == pm.str_lit(n), z3.BoolVal(cls == c)) for n, c in TABLE.items()])),
+            ('C03.policy_factory.partial_binds', z3.BoolVal(not unbound))]
+
+
+# =========================================================================================== F. designers refuse conditional spaces
+BODY_REACHED = '<constructor body reached>'
+
+
+def guard_entry(dotted, clsname):
+    def entry(it):
+        run = it.run
+        run.cond = run.fresh('is_conditional', z3.BoolSort())
+        space = A.make_instance(it, mod(PCM).classes['SearchSpace'], _parameter_configs=M.PyDict(), _parent_values=())
+        kc, kp = PCM + ':SearchSpace.is_conditional', PCM + ':SearchSpace.parameters'
+
+        def reached(it_, obj):
+            raise PyRaise(it_.make_exc('RuntimeError', [BODY_REACHED]))
+        E.PROPERTIES[kc] = lambda it_, obj: run.cond
+        E.PROPERTIES[kp] = reached
+        try:
+            return it.call(mod(dotted).classes[clsname], [space], {})
+        finally:
+            E.PROPERTIES.pop(kc, None)
+            E.PROPERTIES.pop(kp, None)
+    return entry
+
+
+def guard_post(clsname):
+    name = 'C03.%s.__init__.refuses_conditional' % clsname
+
+    def post(p):
+        cond = p.run.cond
+        if p.kind == 'raise' and exc_class(p) == 'ValueError':
+            return [(name, cond)]                                   # refuses only conditional spaces ...
+        if p.kind == 'raise' and exc_class(p) == 'RuntimeError' and p.value.attrs.get('args') == (BODY_REACHED,):
+            return [(name, z3.Not(cond))]                           # ... and the constructor body is entered for flat spaces only
+        return [(name, z3.Not(cond))]
+    return post
+
+
+# =========================================================================================== G. construction frames
+from pyvc import flowframe as FF  # noqa: E402
+
+FRAMES = [
+    # (module, class, method, producers {call suffix: label}, extra sink constructors)
+    (RDM, 'RandomDesigner', 'suggest', {'_converter.to_parameters': 'DefaultTrialConverter.to_parameters'}, ()),
+    (QRM, 'QuasiRandomDesigner', 'suggest', {'_converter.to_parameters': 'DefaultTrialConverter.to_parameters'}, ()),
+    (GRID, 'GridSearchDesigner', 'suggest', {'_grid_points_from_parameter_config': 'GridSearchDesigner._grid_points_from_parameter_config'}, ()),
+    (RPM, 'RandomPolicy', 'suggest', {'RandomDesigner().suggest': 'RandomDesigner.suggest'}, ('SuggestDecision',)),
+    # the converters the designers funnel through: values stored into the ParameterDicts come from to_parameter_values only
+    (CORE, 'DefaultTrialConverter', 'to_parameters', {'parameter_converter.to_parameter_values': 'DefaultModelInputConverter.to_parameter_values'}, ()),
+    (CORE, 'TrialToArrayConverter', 'to_parameters', {'_impl.to_parameters': 'DefaultTrialConverter.to_parameters'}, ()),
+]
+
+
+def frame_obligations(chk):
+    """C03.<Designer>.suggest.only_producers: every value reaching a ParameterDict / TrialSuggestion returned by suggest() comes,
+    by backward data flow over the real AST (flow-insensitive, class-aware), from a declared producer."""
+    for dotted, clsname, method, producers, extra in FRAMES:
+        name = 'C03.%s.%s.only_producers' % (clsname, method)
+        fname = '%s.%s' % (clsname, method)
+        t0 = time.time()
+        chk.function(dotted, fname)
+        try:
+            cls = mod(dotted).classes[clsname]
+            sl = FF.Slicer(cls, producers, sinks=('TrialSuggestion', 'ParameterDict') + tuple(extra))
+            leaves = sl.origins_of_returns(method)
+        except FF.Unanalysable as e:
+            chk.obligation(name, fname, 'frame', report.ERROR, time.time() - t0,
+                           detail='the data-flow slicer cannot analyse the real code of %s: %s' % (fname, e))
+            continue
+        except KeyError as e:
+            chk.obligation(name, fname, 'frame', report.ERROR, time.time() - t0, detail='not found in the current tree: %r' % (e,))
+            continue
+        unresolved = sorted(l for l in leaves if l.startswith('unresolved:'))
+        if unresolved:
+            chk.obligation(name, fname, 'frame', report.UNDECIDED, time.time() - t0,
+                           detail={'reason': 'the slice reaches code outside the class', 'unresolved': unresolved, 'sources': sorted(leaves)})
+            continue
+        bad = sorted(l for l in leaves if not l.startswith('producer:'))
+        detail = {'sources': sorted(leaves), 'allowed': sorted('producer:' + v for v in producers.values())}
+        if not leaves:
+            chk.obligation(name, fname, 'frame', report.ERROR, time.time() - t0, detail='no source reaches the returned suggestions (vacuous frame)')
+        elif bad:
+            detail['not_a_producer'] = bad
+            chk.obligation(name, fname, 'frame', report.VIOLATED, time.time() - t0, detail=detail,
+                           model='sources reaching a returned ParameterDict / TrialSuggestion that are not value producers: %s' % bad,
+                           replay={'note': 'structural obligation on the AST of %s (no input: every call takes this flow)' % fname}, reproduced=None)
+        else:
+            chk.obligation(name, fname, 'frame', report.PROVED, time.time() - t0, detail=detail)
+
+
+# =========================================================================================== H. RandomDesigner.suggest: what is handed to the converter
+def rd_suggest_entry(it):
+    """REAL RandomDesigner.suggest on a designer whose converter was built by the real constructors for one CATEGORICAL and one
+    DOUBLE parameter (scale=True, max_discrete_indices=inf, as RandomDesigner.__init__ does); to_parameters is captured."""
+    run = it.run
+    run.stage = 'init'
+    core = mod(CORE)
+    run.dom = K.Dom(run, 'CATEGORICAL')
+    run.dom2 = K.Dom(run, 'DOUBLE', prefix='pd')
+    pc, pc2 = C15.make_pc(it, run.dom), C15.make_pc(it, run.dom2)
+    run.names = (pc.attrs['_name'], pc2.attrs['_name'])
+    run.assume(run.names[0] != run.names[1])
+    SK.LOG_OBLIGATION[0] = None
+    mk = lambda q: it.call(core.classes['DefaultModelInputConverter'], [q],
+                           {'scale': True, 'max_discrete_indices': EXTERNAL['numpy.inf'], 'float_dtype': EXTERNAL['numpy.float64']})
+    conv = it.call(core.classes['DefaultTrialConverter'], [[mk(pc), mk(pc2)]], {})
+    run.count = run.fresh('count', z3.IntSort())
+    run.assume(run.count >= 1)
+    run.sample = None
+
+    def to_parameters(it_, args, kw):
+        run.sample = args[1]
+        return []
+    key = CORE + ':DefaultTrialConverter.to_parameters'
+    E.MODELS[key] = to_parameters
+    self = Obj(mod(RDM).classes['RandomDesigner'], {'_converter': conv, '_rng': SK.Rng()})
+    run.stage = 'suggest'
+    try:
+        return K.call_method(it, self, 'suggest', [run.count])
+    finally:
+        E.MODELS.pop(key, None)
+
+
+def rd_suggest_post(p):
+    run = p.run
+    if getattr(run, 'stage', '') != 'suggest':
+        return [('C03.RandomDesigner.suggest.construction_no_raise', z3.BoolVal(p.kind != 'raise'))]
+    name = 'C03.RandomDesigner.suggest.samples_decodable'
+    if p.kind != 'return' or not isinstance(run.sample, M.PyDict):
+        return [(name, z3.BoolVal(False))]
+    items = run.sample.items()
+    if len(items) != 2:
+        return [(name, z3.BoolVal(False))]
+    (k1, a1), (k2, a2) = items
+    ok_shape = all(isinstance(a, NP.NDArray) and a.rank == 2 for a in (a1, a2))
+    if not ok_shape or a1.dtype != 'int' or a2.dtype != 'float':
+        return [(name, z3.BoolVal(False))]
+    n = run.dom.fv.n
+    cnt = run.count
+    return [(name, z3.And(E.to_z3(k1) == run.names[0], E.to_z3(k2) == run.names[1],
+                          NP.zi(a1.shape[0]) == cnt, NP.zi(a2.shape[0]) == cnt, NP.zi(a1.shape[1]) == 1, NP.zi(a2.shape[1]) == 1,
+                          # indices are in-vocabulary (never the out-of-vocabulary slot n), scaled values are finite in [0, 1]:
+                          # by C15._to_parameter_value.none_only_if the decode of neither is None -> no parameter is omitted
+                          NP.QA(cnt, lambda i: z3.And(a1.at(i, 0) >= 0, a1.at(i, 0) < n)),
+                          NP.QA(cnt, lambda i: z3.And(xreal.is_fin(a2.at(i, 0)), xreal.r(a2.at(i, 0)) >= 0, xreal.r(a2.at(i, 0)) <= 1))))]
+
+
+# =========================================================================================== replay of counter-models
+REPLAY = os.path.join(report.VERIF, 'replay', 'c03_replay.py')
+
+
+def run_replay(job):
+    return K.run_replay(job, driver=REPLAY)
+
+
+def draws_of(m, run):
+    out = []
+    for d in getattr(run, 'rng_draws', []):
+        if d[0] == 'uniform':
+            out.append(K.enc(xreal.model_value(m, d[3])))
+        elif d[0] == 'choice':
+            out.append(K.enc(m.eval(d[2], model_completion=True).as_long()))
+    return out
+
+
+def replay_rs(function):
+    def on_violation(name, p, m):
+        run = p.run
+        job = {'kind': 'random_sample', 'function': function, 'obligation': name, 'draws': draws_of(m, run)}
+        for k in ('lo', 'hi'):
+            if hasattr(run, k):
+                job[k] = K.enc(K.model_scalar(m, getattr(run, k)))
+        if hasattr(run, 'xs'):
+            job['array'] = [K.enc(x) for x in K.model_list(m, run.xs)]
+            job['value'] = K.enc(K.model_scalar(m, run.v))
+        if hasattr(run, 'dom'):
+            job['pc'] = K.dom_spec(m, run.dom)
+        return run_replay(job)
+    return on_violation
+
+
+def replay_default(name, p, m):
+    run = p.run
+    job = {'kind': 'default', 'obligation': name, 'pc': K.dom_spec(m, run.dom),
+           'default': None if run.default is None else K.enc(K.model_scalar(m, run.default))}
+    return run_replay(job)
+
+
+def replay_grid(scale):
+    def on_violation(name, p, m):
+        run = p.run
+        d = K.dom_spec(m, run.dom)
+        d['scale'] = scale
+        res = m.eval(run.res, model_completion=True).as_long()
+        return run_replay({'kind': 'grid', 'obligation': name, 'pc': d, 'resolution': max(1, min(res, 50))})
+    return on_violation
+
+
+def replay_halton(pad):
+    def on_violation(name, p, m):
+        run = p.run
+        n = m.eval(run.dom.fv.n, model_completion=True).as_long()
+        if n > 10000:
+            return {'note': 'counter-model with %d categories: not replayed' % n}, None
+        return run_replay({'kind': 'halton', 'obligation': name, 'n': n, 'pad_oovs': pad, 'halton': K.enc(xreal.model_value(m, run.h))})
+    return on_violation
+
+
+def replay_factory(name, p, m):
+    alg = K.model_str(m, p.run.alg)
+    return run_replay({'kind': 'factory', 'obligation': name, 'algorithm': alg, 'table': sorted(TABLE),
+                       'unimportable': ['DEFAULT', 'ALGORITHM_UNSPECIFIED', 'GP_UCB_PE', 'GAUSSIAN_PROCESS_BANDIT']})
+
+
+def replay_guard(dotted, clsname):
+    def on_violation(name, p, m):
+        return run_replay({'kind': 'guard', 'obligation': name, 'module': dotted, 'designer': clsname})
+    return on_violation
+
+
+def witness_terms(p):
+    run = p.run
+    out = C15.witness_terms(p)
+    for k in ('lo', 'hi', 'h', 'alg', 'default', 'cond', 'res', 'count'):
+        t = getattr(run, k, None)
+        if z3.is_expr(t):
+            out.append((k, t))
+    return out
+
+
+# =========================================================================================== driver
+class Scoped(C15.Scoped):
+    def obligation(self, name, function, backend, result, *a, **k):
+        if name.startswith('C15.'):
+            name = 'C03.' + name[4:]
+        elif not name.startswith(PID + '.'):
+            name = PID + '.' + name
+        if '.hint_' in name and result == report.VIOLATED:
+            result = report.UNDECIDED
+            k = {'detail': {'reason': 'proof hint refuted: the main obligation decides'}}
+            a = a[:1]
+        return self.chk.obligation(name, function, backend, result, *a, **k)
+
+
+FUNCTIONS = [(RSM, f) for f in ('sample_uniform', 'sample_integer', 'sample_categorical', 'sample_discrete', 'get_closest_element', '_sample_value',
+                                'sample_parameters')] + [
+    (GRID, 'GridSearchDesigner._grid_points_from_parameter_config'), (GRID, 'GridSearchDesigner.__init__'),
+    (QRM, 'QuasiRandomDesigner._generate_discrete_point'), (QRM, 'QuasiRandomDesigner.__init__'),
+    (RDM, 'RandomDesigner.__init__'), (RDM, 'RandomDesigner.suggest'),
+    (SDM, 'get_default_parameters'), (PFM, 'DefaultPolicyFactory.__call__'),
+    (CORE, 'DefaultModelInputConverter._to_parameter_value'), (CORE, 'DefaultModelInputConverter.to_parameter_values'),
+    (CORE, 'DefaultModelInputConverter.__init__'), (CORE, 'ModelInputArrayBijector.scaler_from_spec'),
+    (PCM, 'ParameterConfig.get_subspace_deepcopy'), (PCM, 'ParameterConfig._assert_feasible'),
+]
+
+# names that must be generated on every run (guards against obligations silently disappearing; names that exist only on exceptional
+# paths are not listed)
+INVENTORY = (['C03.%s.%s.only_producers' % (c, m) for c, m in (('RandomDesigner', 'suggest'), ('QuasiRandomDesigner', 'suggest'), ('GridSearchDesigner', 'suggest'),
+                                                                ('RandomPolicy', 'suggest'), ('DefaultTrialConverter', 'to_parameters'), ('TrialToArrayConverter', 'to_parameters'))]
+             + ['C03.%s.__init__.refuses_conditional' % c for c in ('RandomDesigner', 'QuasiRandomDesigner', 'GridSearchDesigner')]
+             + ['C03.%s.in_domain.%s' % (f, t) for f in ('_sample_value', '_to_parameter_value', 'grid_points') for t in TYPES]
+             + ['C03.get_default_parameters.in_domain.%s.%s' % (t, k) for t in TYPES for k in ('centre', 'configured_default')]
+             + ['C03.sample_uniform.in_range', 'C03.sample_integer.in_range', 'C03.sample_integer.integral', 'C03.sample_categorical.in_domain',
+                'C03.sample_discrete.in_domain', 'C03.get_closest_element.is_element', 'C03._generate_discrete_point.in_vocabulary',
+                'C03.policy_factory.accepts_only_registered', 'C03.policy_factory.table', 'C03.RandomDesigner.suggest.samples_decodable',
+                'C03.grid_points.only_producer.DOUBLE']
+             + ['C03.to_parameter_values.decode_is_last.%s' % t for t in TYPES])
+
+F18 = 'C03.get_default_parameters.in_domain.DOUBLE.configured_default'
+F_LOG = 'C03.scaler_from_spec.log_of_positive.LOG'
+F_RLOG = 'C03.scaler_from_spec.log_of_positive.REVERSE_LOG'
+
+
+def families(tier):
+    """(function name, entry, post, on_violation, mode)"""
+    fams = [
+        ('random_sample.sample_uniform', rs_uniform_entry, rs_uniform_post, replay_rs('sample_uniform'), None),
+        ('random_sample.sample_integer', rs_integer_entry, rs_integer_post, replay_rs('sample_integer'), None),
+        ('random_sample.get_closest_element', rs_closest_entry, rs_closest_post, replay_rs('get_closest_element'), None),
+        ('random_sample.sample_categorical', rs_categorical_entry, member_post('C03.sample_categorical'), replay_rs('sample_categorical'), None),
+        ('random_sample.sample_discrete', rs_discrete_entry, member_post('C03.sample_discrete'), replay_rs('sample_discrete'), None),
+    ]
+    for t in TYPES:
+        fams.append(('random_sample._sample_value', sample_value_entry(t), sample_value_post(t), replay_rs('_sample_value'), None))
+    for t in TYPES:
+        for sc in (C15.SCALES if t == 'DOUBLE' else (None,)):
+            fams.append(('GridSearchDesigner._grid_points_from_parameter_config', grid_entry(t, sc), grid_post(t, sc), replay_grid(sc), 'decode-contract'))
+    # the spec handed to _generate_discrete_point is built by QuasiRandomDesigner.__init__ through DefaultModelInputConverter, which always
+    # pads one out-of-vocabulary index (NumpyArraySpec.from_parameter_config default pad_oovs=True); with pad_oovs=False the spec
+    # bounds (0, n) would make index n reachable -- not constructible from the designer, stated as a precondition
+    for pad in (True,):
+        fams.append(('QuasiRandomDesigner._generate_discrete_point', halton_entry(pad), halton_post(pad), replay_halton(pad), None))
+    for t in TYPES:
+        for wd in (False, True):
+            fams.append(('suggest_default.get_default_parameters', default_entry(t, wd), default_post(t, wd), replay_default, None))
+    fams.append(('DefaultPolicyFactory.__call__', factory_entry, factory_post, replay_factory, None))
+    for dotted, c in ((RDM, 'RandomDesigner'), (QRM, 'QuasiRandomDesigner'), (GRID, 'GridSearchDesigner')):
+        fams.append((c + '.__init__', guard_entry(dotted, c), guard_post(c), replay_guard(dotted, c), None))
+    fams.append(('RandomDesigner.suggest', rd_suggest_entry, rd_suggest_post, None, None))
+    # the decode producer shared with C15 (same entries and postconditions, recorded under C03 names)
+    dt = 'float64'
+    for t in TYPES:
+        for sc in (C15.SCALES if t == 'DOUBLE' else (None,)):
+            fams.append(('DefaultModelInputConverter._to_parameter_value', C15.tpv_entry(t, dt, sc), C15.tpv_post(t, dt, sc), C15.replay_tpv(dt, sc), 'c15'))
+            fams.append(('DefaultModelInputConverter.to_parameter_values', C15.tpvs_entry(t, dt, sc), C15.tpvs_post(t, dt, sc), None, 'c15-decode-contract'))
+    for sc in ('LOG', 'REVERSE_LOG'):
+        fams.append(('ModelInputArrayBijector.scaler_from_spec', C15.scaler_entry(dt, sc, False), C15.scaler_post(dt, sc, False), C15.replay_scaler(dt, sc), 'c15'))
+    return fams
+
+
+def keep(name):
+    """obligations of the shared C15 families that are C03 matters"""
+    if name.startswith('C15.'):
+        return any(s in name for s in ('.in_domain.', '.none_only_if.', '.raises_only_below_range.', '.to_parameter_values.', '.log_of_positive.',
+                                       '.refuses_only_nonpositive_log_bounds.')) \
+            and '.hint_' not in name
+    return name.startswith('C03.')
+
+
+def main(tier):
+    chk = report.Check(PID, tier, level='proof',
+                       technique='contract-based deductive verification of the value producers (real ASTs executed symbolically by pyvc; XReal floats; '
+                                 'rng methods as assumed contracts; oracle from the property statement; z3) + construction frames by backward data flow '
+                                 'over the real ASTs of the designers; claim limited to the stated subset')
+    for t in A.TRUST + SK.TRUST + ['pyvc VC generator and its Python/numpy models (DESIGN 2, 4.5)', 'z3 5.1.0', SPB_TRUST,
+                                   'pyvc/flowframe.py: flow-insensitive, class-aware backward slice (DESIGN 6, construction frames)',
+                                   'ParameterConfig.contains / SearchSpace.contains agree with the membership oracle (proved by the C16 check)']:
+        chk.trust(t)
+    for a in ASSUMPTIONS + C15.ASSUMPTIONS[:4]:
+        chk.assume(a)
+    for n in NOT_VERIFIED:
+        chk.note('NOT VERIFIED: ' + n + '.')
+    chk.extra['not_verified'] = NOT_VERIFIED
+    for dotted, q in FUNCTIONS:
+        chk.function(dotted, q)
+    chk.function(ITM, 'SequentialParameterBuilder._coroutine', role='modelled by its flat-space contract (generator with send: outside the engine); cross-checked natively')
+    natives = {'findings': K.start_native(['findings'], 'c03f', driver=REPLAY),
+               'builder': K.start_native(['builder_model'], 'c03b', driver=REPLAY),
+               'standin': K.start_native(['standin', tier], 'c03s', driver=REPLAY)}
+    # ---- known findings
+    known = {}
+    f18 = chk.finding_for(F18)
+    if f18:
+        known[F18] = (f18['what'], default_class)
+    for name, sc in ((F_LOG, 'LOG'), (F_RLOG, 'REVERSE_LOG')):
+        f = chk.finding_for(name)
+        if f:
+            known['C15.' + name[4:]] = (f['what'], C15.log_class(sc))
+    timeout = 8000 if tier == 'quick' else 60000
+    inlined = set()
+    rename = lambda n: 'C03.' + n[4:] if n.startswith('C15.') else n
+    for fname, entry, post, onv, mode in families(tier):
+        if mode in ('decode-contract', 'c15-decode-contract'):
+            E.MODELS[C15.TPV_KEY] = C15._decode_contract
+        try:
+            fr = verify.verify_function(Scoped(chk), fname, entry, post, known=known, on_violation=onv, witness_terms=witness_terms,
+                                        timeout_ms=timeout, deadline_s=120, only=keep, rename=rename)
+        finally:
+            E.MODELS.pop(C15.TPV_KEY, None)
+        inlined |= fr.inlined
+    chk.extra['inlined_real_functions'] = sorted(inlined)
+    # ---- construction frames
+    frame_obligations(chk)
+    # ---- sample_parameters on concrete spines: a bounded stand-in (the loop runs over a search space of a fixed shape)
+    col = K.Collector(chk)
+    shapes = [TYPES, ('DOUBLE',), ('CATEGORICAL', 'INTEGER')]
+    for types in shapes:
+        verify.verify_function(Scoped(col), 'random_sample.sample_parameters', sample_parameters_entry(types), sample_parameters_post(types),
+                               witness_terms=witness_terms, timeout_ms=timeout, deadline_s=60)
+    bad = [r for r in col.records if r[3] != report.PROVED]
+    if bad:
+        for r in bad:
+            r[5].pop('finding', None)
+            chk.obligation(r[0], r[1], r[2], r[3], r[4], **r[5])
+    else:
+        chk.bounded_standin('random_sample.sample_parameters (real AST, symbolic parameter definitions): each parameter exactly once, every value inside its domain',
+                            'search spaces of the shapes %s (symbolic bounds / feasible sets / names; the loop body is parameter-generic and proved for every '
+                            'parameter by C03._sample_value.*)' % (list(map(list, shapes)),), 'held', detail={'obligations': len(col.records)})
+    # ---- native side
+    res, verdict, err = K.collect_native(natives['builder'])
+    if res is None or verdict != 'NOT-REPRODUCED':
+        chk.error('C03.builder_model.cross_check', 'the flat-space contract of SequentialParameterBuilder disagrees with the real class (or the driver failed): %s %s' % (verdict, err or res))
+    else:
+        chk.note('SequentialParameterBuilder contract cross-checked on the real class: %d runs, 0 disagreements' % res['runs'])
+    res, verdict, err = K.collect_native(natives['findings'])
+    # a listed finding that no longer reproduces is never an error: the deductive verdicts above decide, this is a note
+    if res is not None:
+        chk.note('finding witnesses replayed on the real code (%s): %s' % ('all reproduce' if verdict == 'REPRODUCED' else 'not all reproduce', json.dumps(res)))
+    else:
+        chk.note('finding witness driver did not run: %s %s' % (verdict, str(err)[:200]))
+    res, verdict, err = K.collect_native(natives['standin'], timeout=600)
+    if res is None:
+        chk.error('C03.standin.designers', 'native stand-in did not run: %s %s' % (verdict, err))
+    elif res['n_failures']:
+        chk.obligation('C03.standin.designers_in_domain', 'RandomDesigner/QuasiRandomDesigner/GridSearchDesigner.suggest', 'native-enumeration', report.VIOLATED, 0.0,
+                       detail=res['failures'][0], model=json.dumps(res['failures'][:5]),
+                       replay={'cmd': '/venv/bin/python %s standin %s' % (REPLAY, tier), 'first_failure': res['failures'][0]}, reproduced=True)
+    else:
+        chk.bounded_standin('RandomDesigner, QuasiRandomDesigner, GridSearchDesigner (plain and shuffled) .suggest and get_default_parameters on the real code: every '
+                            'suggestion assigns each parameter exactly once inside its domain (incl. the scaled continuous decode through log/exp)',
+                            '%d generated flat spaces (1, 2, ~5 and all of %s parameter kinds: unit/negative/singleton/huge/tiny/LOG/REVERSE_LOG/defaulted doubles, zero-width/'
+                            'small/wide integers, 1/3/12 discrete values, 1/3 categories, bool) x batch sizes; refusals (exceptions) are allowed and counted'
+                            % (res['spaces'], 'the pool of'), 'held', detail={k: res[k] for k in ('spaces', 'runs', 'n_refusals', 'refusal_examples')})
+    return chk.finish(min_obligations=60, inventory=INVENTORY)
